@@ -505,6 +505,9 @@ class RouteCQC:
         timestep. Iterate this this looking ahead process up to the next `lookahead_radius`
         timesteps. If there still doesn't exist a unique swap with minial cost then returns None.
         """
+        if not sigma:
+            # No candidates (e.g. no two disjoint swaps exist on a small device).
+            return None
         for s in range(timestep, min(lookahead_radius + timestep, len(two_qubit_ops_ints))):
             if len(sigma) <= 1:
                 break
